@@ -174,22 +174,70 @@ class Gen:
         return t, intent
 
     # ------------------------------------------------------------------ members
-    def good_instance_dict(self):
-        """a well-formed class dict of the closed set (to be placed where another class dict consumes it)"""
+    def good_proxy_dict(self):
+        """a well-formed Proxy class dict; the remote member lists name what Pyro's own code might touch on an instance it
+        re-created (iteration, indexing, .items(), exception attributes), so that any such touch becomes a remote call"""
+        r = self.rng
+        touch = ["__iter__", "items", "__len__", "__getitem__", "_pyroTraceback", "args", "exception", "raiseIt", "__traceback__",
+                 "with_traceback", "__cause__", "state", "keys", "get", "decode", "startswith", "split"]
+        k = r.random()
+        if k < 0.4:
+            methods, attrs = [], []
+        elif k < 0.7:
+            methods, attrs = r.sample(touch, r.randrange(1, 6)), []
+        else:
+            methods, attrs = r.sample(touch, r.randrange(0, 4)), r.sample(touch, r.randrange(1, 6))
+        return {"__class__": "Pyro5.client.Proxy",
+                "state": [r.choice([LOOP_URI, UNIX_URI]), [], methods, attrs, "hello", None]}
+
+    def good_instance_dict(self, depth=0):
+        """a well-formed class dict of the closed set (to be placed where another class dict consumes it); its own members may
+        again be well-formed class dicts, so that every allowed class shows up as a member of every other one, at any depth"""
         r = self.rng
         k = r.random()
-        if k < 0.45:
-            return {"__class__": "Pyro5.client.Proxy",
-                    "state": [r.choice([LOOP_URI, UNIX_URI]), [], r.choice([[], ["__iter__", "items", "__len__", "__getitem__"]]), [], "hello", None]}
-        if k < 0.60:
+        inner = (lambda: self.good_instance_dict(depth + 1)) if depth < 3 else self.good_proxy_dict
+        if k < 0.40:
+            return self.good_proxy_dict()
+        if k < 0.50:
             return {"__class__": "Pyro5.core.URI", "state": ["PYRO", "obj", None, "127.0.0.1", 1]}
-        if k < 0.80:
-            return {"__class__": r.choice(["ValueError", "builtins.KeyError", "Pyro5.errors.NamingError", "sqlite3.Error"]),
-                    "__exception__": True, "args": ["inner"]}
-        if k < 0.90:
-            return {"__class__": "Pyro5.core._ExceptionWrapper",
-                    "exception": {"__class__": "ZeroDivisionError", "__exception__": True, "args": []}}
+        if k < 0.68:
+            d = {"__class__": r.choice(["ValueError", "builtins.KeyError", "Pyro5.errors.NamingError", "sqlite3.Error", "struct.error"]),
+                 "__exception__": True, "args": ["inner"]}
+            if r.random() < 0.3:
+                d["args"] = r.choice([[inner()], inner()])
+            if r.random() < 0.3:
+                d["attributes"] = {"_pyroTraceback": r.choice([["tb"], inner()])}
+            return d
+        if k < 0.92:
+            ex = r.choice([{"__class__": "ZeroDivisionError", "__exception__": True, "args": []}, inner(), inner(), self.good_proxy_dict()])
+            return {"__class__": "Pyro5.core._ExceptionWrapper", "exception": ex}
         return {"__class__": r.choice(["Pyro5.server.Daemon", "Pyro5.util.JsonSerializer"]), "state": []}
+
+    def bulk_list(self, depth):
+        """a long list around the 1024 mark whose two ends are numbers, with class dicts (acceptable and not) in between"""
+        r = self.rng
+        n = r.choice([1023, 1024, 1024, 1025, 1500, 2048, 4096])
+        num = lambda: r.choice([0, 1, -3, 2.5, 0.0, 7])
+        xs = [num() for _ in range(n)]
+        if r.random() < 0.15:
+            xs[0] = r.choice(["s", None, True])
+        if r.random() < 0.15:
+            xs[-1] = r.choice(["s", None, True])
+        for _ in range(r.choice([1, 1, 2, 3])):
+            i = r.choice([1, n // 2, n - 2, r.randrange(1, n - 1)])
+            k = r.random()
+            if k < 0.45:
+                xs[i] = r.choice([{"__class__": "subprocess.Popen", "args": ["/bin/true"]},
+                                  {"__class__": "os.system", "__exception__": True, "args": ["true"], "attributes": {}},
+                                  {"__class__": "builtins.__import__", "__exception__": True, "args": ["os"]},
+                                  {"__class__": "Pyro5.server.DaemonObject", "state": []}])
+            elif k < 0.65:
+                xs[i] = self.class_dict(depth + 1)
+            elif k < 0.85:
+                xs[i] = self.good_instance_dict()
+            else:
+                xs[i] = r.choice([[self.class_dict(depth + 1)], {"k": self.class_dict(depth + 1)}, (1, self.good_instance_dict())])
+        return xs
 
     def args_value(self, depth):
         r = self.rng
@@ -311,7 +359,9 @@ class Gen:
                 d["state"] = self.daemon_state()
         elif intent == "Pyro5.core._ExceptionWrapper":
             k = r.random()
-            if k < 0.70 and depth < 6:
+            if k < 0.30:
+                d["exception"] = self.good_instance_dict()
+            elif k < 0.70 and depth < 6:
                 d["exception"] = self.class_dict(depth + 1)
             elif k < 0.92:
                 d["exception"] = self.node(depth + 1) if depth < 5 else self.leaf()
@@ -341,8 +391,11 @@ class Gen:
         k = r.random()
         if k < 0.40:
             tree = self.class_dict(0)
-        elif k < 0.93:
+        elif k < 0.915:
             tree = self.container(0)
+        elif k < 0.93:
+            b = self.bulk_list(0)
+            tree = r.choice([b, b, {"data": b}, [b, 1], ("x", b), {"__class__": "ValueError", "__exception__": True, "args": [b]}])
         else:
             tree = self.leaf()
         if r.random() < 0.04 and not self.reg:
